@@ -124,6 +124,9 @@ class Ctx:
     def n(self, quick: int, thorough: int) -> int:
         """Per-shard case count from a whole-run budget."""
         total = quick if self.tier == "quick" else thorough
+        # VERIF_BUDGET_SCALE is used only by the mutant-screening tools (tools/mutant_sweep.py)
+        # to run a cheaper first pass; registered commands never set it.
+        total = max(1, int(total * float(os.environ.get("VERIF_BUDGET_SCALE", "1") or "1")))
         return max(1, (total + self.nshards - 1) // self.nshards)
 
     def pick(self, quick: Any, thorough: Any) -> Any:
